@@ -39,8 +39,28 @@ var (
 		"empty.test.":        {{}, {}, nil},
 		"rebind-local.test.": {{"8.8.8.8"}, {"127.0.0.1"}, nil},
 		"flip-local.test.":   {{"8.8.8.8"}, {"8.8.8.8"}, {"127.0.0.1"}}, // public when vetted, local if resolved once more
+		// rebinding schedules whose vetted answer has several public records (round-robin, dual stack)
+		"flip2-local.test.":   {{"8.8.8.8", "1.1.1.1"}, {"8.8.8.8", "1.1.1.1"}, {"127.0.0.1"}},
+		"flip3-local.test.":   {{"203.0.113.10", "203.0.113.11", "203.0.113.12"}, {"203.0.113.10", "203.0.113.11", "203.0.113.12"}, {"127.0.0.1"}},
+		"flip4-local.test.":   {{"8.8.8.8", "1.1.1.1", "9.9.9.9", "208.67.222.222"}, {"8.8.8.8", "1.1.1.1", "9.9.9.9", "208.67.222.222"}, {"127.0.0.1"}},
+		"flipds-local.test.":  {{"8.8.8.8", "2001:4860:4860::8888"}, {"8.8.8.8", "2001:4860:4860::8888"}, {"127.0.0.1"}},
+		"flip2-int.test.":     {{"8.8.8.8", "1.1.1.1"}, {"8.8.8.8", "1.1.1.1"}, {"10.0.0.7"}},
+		"flip2-map.test.":     {{"8.8.8.8", "8.8.4.4"}, {"8.8.8.8", "8.8.4.4"}, {"::ffff:127.0.0.1"}},
+		"flip2-meta.test.":    {{"1.1.1.1", "1.0.0.1"}, {"1.1.1.1", "1.0.0.1"}, {"169.254.169.254"}},
+		"rebind2-local.test.": {{"8.8.8.8", "1.1.1.1"}, {"127.0.0.1"}, nil}, // several public records at check time, local at dial time
 	}
 )
+
+// lookupsOf reports how many A queries were seen for a name since the last setPhase.
+func lookupsOf(name string) int {
+	dnsMu.Lock()
+	defer dnsMu.Unlock()
+	k := strings.ToLower(name)
+	if !strings.HasSuffix(k, ".") {
+		k += "."
+	}
+	return dnsCount[k]
+}
 
 func setPhase(p int) {
 	dnsMu.Lock()
